@@ -907,6 +907,28 @@ theorem rotation_preserves_circle (co si x y : K) (h : co ^ 2 + si ^ 2 = 1) :
   · linear_combination (x ^ 2 + y ^ 2) * h
   · ring
 
+/-! ## negation witnesses for the repaired defects (earlier code = `asPinned`) -/
+
+/-- a scalar NURBS surface patch on a 2×1 control grid -/
+def witnessScalarNurbs : Func Nat :=
+  { nurbs := true, dims := [2, 1], vshape := [2], isscalar := true, c := [3, 1, 5, 1] }
+
+/-- before 91ad8af `copy()` and `boundary()` of a scalar NURBS were not scalar; now they are -/
+theorem copy_boundary_pinned_lose_scalar :
+    (witnessScalarNurbs.copy true).isscalar = false ∧ (witnessScalarNurbs.copy).isscalar = true ∧
+    ((witnessScalarNurbs.boundaryCoded 0 0 true).toOption.map (·.isscalar)) = some false ∧
+    ((witnessScalarNurbs.boundaryCoded 0 0).toOption.map (·.isscalar)) = some true := by decide
+
+/-- a B-spline curve with values in ℕ² (2 control points) -/
+def witnessCurve : Func Nat :=
+  { nurbs := false, dims := [2], vshape := [2], isscalar := false, c := [1, 2, 3, 4] }
+
+/-- before bd2c016 the end point of a vector-valued curve could not be extracted (assertion);
+now `boundary` returns the last control point -/
+theorem boundary_pinned_curve_asserts :
+    (witnessCurve.boundaryCoded 0 1 true).toOption = none ∧
+    ((witnessCurve.boundaryCoded 0 1).toOption.map (·.c)) = some [3, 4] := by decide
+
 /-! ## non-vacuity -/
 
 example : ((3 : ℚ) / 5) ^ 2 + (4 / 5) ^ 2 = 1 := by norm_num
